@@ -386,8 +386,9 @@ Lemma media_stop_after_braces_end : media_stop_ok [123; 125].
 Proof. unfold media_stop_ok. cbn. exact I. Qed.
 
 (* ------------------------------------------------------------------ *)
-(** * 7. Time fields: what the text side accepts, for every value the CBE bit fields can hold
-      (finite domains, swept by vm_compute through the complete reader model) *)
+(** * 7. Time fields: for every value the CBE bit fields can hold, the text side accepts the CTE encoder's
+      spelling exactly when cbe/decoder_reader.go validateTime ([cbe_time_ok]) lets the value through, and then
+      reads the same time (finite domains, swept by vm_compute through the complete reader model) *)
 
 Definition agrees (t : ctime) : bool := option_eqb bytes_eqb (time_reread (time_string t)) (time_expected t).
 
@@ -402,6 +403,27 @@ Proof.
   intro H. apply bytes_eqb_eq in H. congruence.
 Qed.
 
+Definition plain_zone (z : tzone) : Prop := match z with TzArea _ => False | _ => True end.
+
+Lemma zone_canon_string z : plain_zone z -> zone_string (zone_canon (zone_canon z)) = zone_string z.
+Proof.
+  destruct z as [|n|la lo|o]; cbn [plain_zone]; intro H; try contradiction; try reflexivity.
+  cbn [zone_canon]. destruct (o =? 0)%Z eqn:E; [|cbn [zone_canon]; rewrite E; reflexivity].
+  cbn [zone_canon zone_string]. rewrite E. reflexivity.
+Qed.
+
+Lemma time_canon_string t : plain_zone (t_zone t) -> time_string (time_canon t) = time_string t.
+Proof.
+  intro H. unfold time_string, clock_string, date_string, time_canon. cbn [t_type t_year t_month t_day t_hour t_minute t_second t_nano t_zone].
+  rewrite (zone_canon_string _ H). reflexivity.
+Qed.
+
+Lemma agrees_spec t : agrees t = true -> plain_zone (t_zone t) ->
+  time_reread (time_string t) = if cbe_time_ok t then Some (time_string t) else None.
+Proof.
+  intros A P. apply option_bytes_eqb_eq in A. rewrite A. unfold time_expected. rewrite (time_canon_string t P). reflexivity.
+Qed.
+
 (* hour: 5 bits, minute and second: 6 bits each *)
 Lemma clock_sweep :
   forallb (fun h => forallb (fun m => forallb (fun s => agrees (clock_time h m s TzUTC)) (nseq 0 64)) (nseq 0 64)) (nseq 0 32) = true.
@@ -409,14 +431,17 @@ Proof. vm_compute. reflexivity. Qed.
 
 Theorem clock_fields_exact h m s : h < 32 -> m < 64 -> s < 64 ->
   time_reread (time_string (clock_time h m s TzUTC)) =
-  if (h <=? 23) && (m <=? 59) && (s <=? 60) then Some (time_string (clock_time h m s TzUTC)) else None.
+    (if cbe_time_ok (clock_time h m s TzUTC) then Some (time_string (clock_time h m s TzUTC)) else None) /\
+  cbe_time_ok (clock_time h m s TzUTC) = (h <=? 23) && (m <=? 59) && (s <=? 60).
 Proof.
-  intros Hh Hm Hs. pose proof clock_sweep as W. rewrite forallb_forall in W.
-  specialize (W h ltac:(apply nseq_In; lia)). rewrite forallb_forall in W.
-  specialize (W m ltac:(apply nseq_In; lia)). rewrite forallb_forall in W.
-  specialize (W s ltac:(apply nseq_In; lia)). apply option_bytes_eqb_eq in W. rewrite W.
-  unfold time_expected, time_valid, clock_valid, time_lexable, zone_lexable, clock_time. cbn [t_type t_hour t_minute t_second t_nano t_zone zone_valid].
-  change (0 <=? 999999999) with true. rewrite !andb_true_r. reflexivity.
+  intros Hh Hm Hs. split.
+  - pose proof clock_sweep as W. rewrite forallb_forall in W.
+    specialize (W h ltac:(apply nseq_In; lia)). rewrite forallb_forall in W.
+    specialize (W m ltac:(apply nseq_In; lia)). rewrite forallb_forall in W.
+    specialize (W s ltac:(apply nseq_In; lia)). apply (agrees_spec _ W I).
+  - unfold cbe_time_ok, time_valid, clock_valid, time_lexable, zone_lexable, clock_time.
+    cbn [t_type t_hour t_minute t_second t_nano t_zone zone_valid].
+    change (0 <=? 999999999) with true. rewrite !andb_true_r. reflexivity.
 Qed.
 
 (* month: 4 bits, day: 5 bits *)
@@ -425,18 +450,20 @@ Proof. vm_compute. reflexivity. Qed.
 
 Theorem date_fields_exact mo d : mo < 16 -> d < 32 ->
   time_reread (time_string (date_time 2020 mo d)) =
-  if (1 <=? mo) && (mo <=? 12) && (1 <=? d) && (d <=? CteRead.day_max mo) then Some (time_string (date_time 2020 mo d)) else None.
+    (if cbe_time_ok (date_time 2020 mo d) then Some (time_string (date_time 2020 mo d)) else None) /\
+  cbe_time_ok (date_time 2020 mo d) = (1 <=? mo) && (mo <=? 12) && (1 <=? d) && (d <=? CteRead.day_max mo).
 Proof.
-  intros Hm Hd. pose proof date_sweep as W. rewrite forallb_forall in W.
-  specialize (W mo ltac:(apply nseq_In; lia)). rewrite forallb_forall in W.
-  specialize (W d ltac:(apply nseq_In; lia)). apply option_bytes_eqb_eq in W. rewrite W.
-  unfold time_expected, time_valid, date_valid, time_lexable, date_time. cbn [t_type t_year t_month t_day].
-  rewrite andb_true_r. reflexivity.
+  intros Hm Hd. split.
+  - pose proof date_sweep as W. rewrite forallb_forall in W.
+    specialize (W mo ltac:(apply nseq_In; lia)). rewrite forallb_forall in W.
+    specialize (W d ltac:(apply nseq_In; lia)). apply (agrees_spec _ W I).
+  - unfold cbe_time_ok, time_valid, date_valid, time_lexable, date_time. cbn [t_type t_year t_month t_day].
+    rewrite andb_true_r. reflexivity.
 Qed.
 
-(* year 0 is refused whatever the rest *)
-Lemma year_zero_refused : time_reread (time_string (date_time 0 1 1)) = None.
-Proof. vm_compute. reflexivity. Qed.
+(* year 0 is refused by both sides *)
+Lemma year_zero_refused : cbe_time_ok (date_time 0 1 1) = false /\ time_reread (time_string (date_time 0 1 1)) = None.
+Proof. vm_compute. split; reflexivity. Qed.
 
 (* UTC offset: 12 bits, signed *)
 Definition zseq (lo : Z) (n : N) : list Z := map (fun k => (lo + Z.of_N k)%Z) (nseq 0 (N.to_nat n)).
@@ -450,16 +477,15 @@ Proof. vm_compute. reflexivity. Qed.
 
 Theorem offset_field_exact o : (-2048 <= o < 2048)%Z ->
   time_reread (time_string (clock_time 1 2 3 (TzOffset o))) =
-  if ((-1439 <=? o) && (o <=? 1439))%Z then Some (time_string (clock_time 1 2 3 (TzOffset o))) else None.
+    (if cbe_time_ok (clock_time 1 2 3 (TzOffset o)) then Some (time_string (clock_time 1 2 3 (TzOffset o))) else None) /\
+  cbe_time_ok (clock_time 1 2 3 (TzOffset o)) = ((-1439 <=? o) && (o <=? 1439))%Z.
 Proof.
-  intro Ho. pose proof offset_sweep as W. rewrite forallb_forall in W.
-  specialize (W o ltac:(apply zseq_In; lia)). apply option_bytes_eqb_eq in W. rewrite W.
-  unfold time_expected, time_valid, clock_valid, time_lexable, zone_lexable, clock_time.
-  cbn [t_type t_hour t_minute t_second t_nano t_zone zone_valid time_canon zone_canon].
-  destruct ((-1439 <=? o) && (o <=? 1439))%Z eqn:E; cbn [andb]; [|reflexivity].
-  f_equal. unfold time_string, clock_string, time_canon. cbn [t_type t_hour t_minute t_second t_nano t_zone zone_canon].
-  destruct (o =? 0)%Z eqn:Z0; [|cbn [zone_canon]; rewrite Z0; reflexivity].
-  apply Z.eqb_eq in Z0. subst o. reflexivity.
+  intro Ho. split.
+  - pose proof offset_sweep as W. rewrite forallb_forall in W.
+    specialize (W o ltac:(apply zseq_In; lia)). apply (agrees_spec _ W I).
+  - unfold cbe_time_ok, time_valid, clock_valid, time_lexable, zone_lexable, clock_time.
+    cbn [t_type t_hour t_minute t_second t_nano t_zone zone_valid]. cbn [N.leb N.compare Pos.compare Pos.compare_cont andb].
+    rewrite andb_true_r. reflexivity.
 Qed.
 
 (* latitude: 15 bits, longitude: 16 bits, signed; one coordinate at a time *)
@@ -470,26 +496,393 @@ Proof. vm_compute. reflexivity. Qed.
 
 Theorem latitude_field_exact la : (-16384 <= la < 16384)%Z ->
   time_reread (time_string (clock_time 1 2 3 (TzLatLong la 0))) =
-  if ((-9000 <=? la) && (la <=? 9000))%Z then Some (time_string (clock_time 1 2 3 (TzLatLong la 0))) else None.
+    (if cbe_time_ok (clock_time 1 2 3 (TzLatLong la 0)) then Some (time_string (clock_time 1 2 3 (TzLatLong la 0))) else None) /\
+  cbe_time_ok (clock_time 1 2 3 (TzLatLong la 0)) = ((-9000 <=? la) && (la <=? 9000))%Z.
 Proof.
-  intro H. pose proof latitude_sweep as W. rewrite forallb_forall in W.
-  specialize (W la ltac:(apply zseq_In; lia)). apply option_bytes_eqb_eq in W. rewrite W.
-  unfold time_expected, time_valid, clock_valid, time_lexable, zone_lexable, clock_time.
-  cbn [t_type t_hour t_minute t_second t_nano t_zone zone_valid].
-  change ((-18000 <=? 0)%Z) with true. change ((0 <=? 18000)%Z) with true. rewrite !andb_true_r. cbn [andb].
-  destruct ((-9000 <=? la) && (la <=? 9000))%Z; reflexivity.
+  intro H. split.
+  - pose proof latitude_sweep as W. rewrite forallb_forall in W.
+    specialize (W la ltac:(apply zseq_In; lia)). apply (agrees_spec _ W I).
+  - unfold cbe_time_ok, time_valid, clock_valid, time_lexable, zone_lexable, clock_time.
+    cbn [t_type t_hour t_minute t_second t_nano t_zone zone_valid].
+    change ((-18000 <=? 0)%Z) with true. change ((0 <=? 18000)%Z) with true. rewrite !andb_true_r. reflexivity.
 Qed.
 
 Theorem longitude_field_exact lo : (-32768 <= lo < 32768)%Z ->
   time_reread (time_string (clock_time 1 2 3 (TzLatLong 0 lo))) =
-  if ((-18000 <=? lo) && (lo <=? 18000))%Z then Some (time_string (clock_time 1 2 3 (TzLatLong 0 lo))) else None.
+    (if cbe_time_ok (clock_time 1 2 3 (TzLatLong 0 lo)) then Some (time_string (clock_time 1 2 3 (TzLatLong 0 lo))) else None) /\
+  cbe_time_ok (clock_time 1 2 3 (TzLatLong 0 lo)) = ((-18000 <=? lo) && (lo <=? 18000))%Z.
 Proof.
-  intro H. pose proof longitude_sweep as W. rewrite forallb_forall in W.
-  specialize (W lo ltac:(apply zseq_In; lia)). apply option_bytes_eqb_eq in W. rewrite W.
-  unfold time_expected, time_valid, clock_valid, time_lexable, zone_lexable, clock_time.
-  cbn [t_type t_hour t_minute t_second t_nano t_zone zone_valid].
-  change ((-9000 <=? 0)%Z) with true. change ((0 <=? 9000)%Z) with true. rewrite !andb_true_r. cbn [andb].
-  destruct ((-18000 <=? lo) && (lo <=? 18000))%Z; reflexivity.
+  intro H. split.
+  - pose proof longitude_sweep as W. rewrite forallb_forall in W.
+    specialize (W lo ltac:(apply zseq_In; lia)). apply (agrees_spec _ W I).
+  - unfold cbe_time_ok, time_valid, clock_valid, time_lexable, zone_lexable, clock_time.
+    cbn [t_type t_hour t_minute t_second t_nano t_zone zone_valid].
+    change ((-9000 <=? 0)%Z) with true. change ((0 <=? 9000)%Z) with true. rewrite !andb_true_r. cbn [andb]. reflexivity.
+Qed.
+
+(* ------------------------------------------------------------------ *)
+(** * 7b. What the validator admits as a media type is what the lexer can match *)
+
+Lemma byte_sweep (f g : N -> bool) :
+  forallb (fun b => Bool.eqb (f b) (g b)) (nseq 0 128) = true ->
+  (forall b, 128 <= b -> f b = false) -> (forall b, 128 <= b -> g b = false) ->
+  forall b, f b = g b.
+Proof.
+  intros W Hf Hg b. destruct (N.ltb_spec b 128) as [L|L].
+  - rewrite forallb_forall in W. specialize (W b ltac:(apply nseq_In; lia)). apply Bool.eqb_prop in W. exact W.
+  - rewrite Hf, Hg by lia. reflexivity.
+Qed.
+
+Lemma media_first_high b : 128 <= b -> Rules.media_first_char b = false.
+Proof. intro H. unfold Rules.media_first_char. lia. Qed.
+
+Lemma media_next_high b : 128 <= b -> Rules.media_next_char b = false.
+Proof.
+  intro H. unfold Rules.media_next_char. rewrite (media_first_high b H). cbn [orb existsb].
+  repeat match goal with |- context [b =? ?k] => replace (b =? k) with false by lia end.
+  replace ((48 <=? b) && (b <=? 57)) with false by lia. reflexivity.
+Qed.
+
+Lemma is_alpha_high b : 128 <= b -> CteRead.is_alpha b = false.
+Proof. intro H. unfold CteRead.is_alpha, CteRead.lower. destruct ((65 <=? b) && (b <=? 90)) eqn:E; lia. Qed.
+
+Lemma ch_media_next_high b : 128 <= b -> CteRead.ch_media_next b = false.
+Proof.
+  intro H. unfold CteRead.ch_media_next. rewrite (is_alpha_high b H). unfold CteRead.is_dec.
+  repeat match goal with |- context [b =? ?k] => replace (b =? k) with false by lia end.
+  replace ((48 <=? b) && (b <=? 57)) with false by lia. replace ((35 <=? b) && (b <=? 39)) with false by lia. reflexivity.
+Qed.
+
+Lemma media_first_eq b : Rules.media_first_char b = CteRead.is_alpha b.
+Proof. apply byte_sweep; [vm_compute; reflexivity | apply media_first_high | apply is_alpha_high]. Qed.
+
+Lemma media_next_eq b : Rules.media_next_char b = CteRead.ch_media_next b.
+Proof. apply byte_sweep; [vm_compute; reflexivity | apply media_next_high | apply ch_media_next_high]. Qed.
+
+Lemma media_split_spec l : forall pre post, Rules.media_split l = (pre, post) ->
+  match post with
+  | Some q => l = pre ++ 47 :: q
+  | None => l = pre
+  end /\ Forall (fun b => b <> 47) pre.
+Proof.
+  induction l as [|b l IH]; intros pre post H; cbn [Rules.media_split] in H.
+  - inversion H; subst. split; [reflexivity|constructor].
+  - destruct (N.eqb_spec b 47) as [E|E].
+    + inversion H; subst. split; [reflexivity|constructor].
+    + destruct (Rules.media_split l) as [pre' post'] eqn:S. inversion H; subst.
+      destruct (IH pre' post eq_refl) as [A B]. split.
+      * destruct post; cbn [app]; congruence.
+      * constructor; assumption.
+Qed.
+
+Lemma forallb_ext_eq {A} (f g : A -> bool) l : (forall x, f x = g x) -> forallb f l = forallb g l.
+Proof. intro H. induction l as [|x l IH]; cbn [forallb]; [reflexivity|]. rewrite H, IH. reflexivity. Qed.
+
+(* rules.ValidateMediaType admits exactly the strings of the lexer's MEDIA_TYPE shape (bytes = code points: ASCII) *)
+Theorem media_type_valid_iff_lexable mt : Rules.media_type_valid mt = media_lexable_runes mt.
+Proof.
+  unfold Rules.media_type_valid, media_lexable_runes. destruct mt as [|b rest]; [reflexivity|].
+  rewrite media_first_eq. destruct (CteRead.is_alpha b); [|reflexivity]. cbn [andb].
+  destruct (Rules.media_split rest) as [pre post] eqn:S. destruct (media_split_spec rest pre post S) as [E N47].
+  destruct (forallb CteRead.ch_media_next pre) eqn:Fp.
+  - (* the span stops exactly at the slash, or at the end *)
+    destruct post as [q|].
+    + subst rest. rewrite (span_app CteRead.ch_media_next pre (47 :: q) Fp eq_refl). change (47 =? 47) with true. cbn [andb].
+      rewrite (forallb_ext_eq _ _ pre media_next_eq), Fp. cbn [andb].
+      destruct q as [|p q].
+      * cbn. reflexivity.
+      * rewrite (forallb_ext_eq _ _ (p :: q) media_next_eq).
+        destruct (CteRead.span CteRead.ch_media_next (p :: q)) as [run2 r3] eqn:S2.
+        destruct (span_spec _ _ _ _ S2) as (E2 & F2 & St2).
+        destruct (forallb CteRead.ch_media_next (p :: q)) eqn:Fq.
+        -- pose proof (span_app CteRead.ch_media_next (p :: q) [] Fq I) as Q. rewrite app_nil_r in Q.
+           rewrite Q in S2. inversion S2; subst. reflexivity.
+        -- (* some character after the slash is outside the class: the span stops early *)
+           destruct r3 as [|x r3].
+           ++ rewrite app_nil_r in E2. subst run2. congruence.
+           ++ destruct run2; cbn; rewrite ?andb_false_r; reflexivity.
+    + subst rest.
+      assert (Sp : CteRead.span CteRead.ch_media_next pre = (pre, [])).
+      { pose proof (span_app CteRead.ch_media_next pre [] Fp I) as Q. rewrite app_nil_r in Q. exact Q. }
+      rewrite Sp. reflexivity.
+  - (* a character before the slash is outside the class *)
+    assert (L : Rules.media_type_valid (b :: rest) = false \/ True) by (right; exact I). clear L.
+    rewrite (forallb_ext_eq _ _ pre media_next_eq), Fp.
+    assert (R : match post with Some (_ :: _) => false && forallb Rules.media_next_char (match post with Some q => q | None => [] end) | _ => false end = false)
+      by (destruct post as [[|? ?]|]; reflexivity).
+    transitivity false.
+    { destruct post as [[|p q]|]; reflexivity. }
+    symmetry.
+    destruct (CteRead.span CteRead.ch_media_next rest) as [run1 r1] eqn:S1.
+    destruct (span_spec _ _ _ _ S1) as (E1 & F1 & St1).
+    destruct r1 as [|x r2]; [reflexivity|]. destruct (N.eqb_spec x 47) as [X|X]; [subst x|reflexivity]. cbn [andb].
+    (* the span stopped at a slash: everything before it is in the class, and it is the first slash *)
+    exfalso.
+    assert (Hpre : pre = run1).
+    { destruct post as [q|].
+      - rewrite E in E1. clear - E1 N47 F1.
+        revert run1 E1 F1. induction pre as [|c pre IHp]; intros run1 E1 F1.
+        + destruct run1 as [|d run1]; [reflexivity|]. cbn [app] in E1. inversion E1; subst.
+          cbn [forallb] in F1. apply andb_true_iff in F1 as [F _]. vm_compute in F. discriminate.
+        + inversion N47; subst. destruct run1 as [|d run1].
+          * cbn [app] in E1. inversion E1; subst. congruence.
+          * cbn [app] in E1. inversion E1; subst. cbn [forallb] in F1. apply andb_true_iff in F1 as [_ F1].
+            f_equal. apply IHp; assumption.
+      - subst rest. clear - E1 N47. exfalso.
+        assert (In 47 pre) by (rewrite E1; apply in_or_app; right; left; reflexivity).
+        rewrite Forall_forall in N47. apply (N47 47 H). reflexivity. }
+    subst run1. congruence.
+Qed.
+
+Lemma media_type_valid_ascii mt : Rules.media_type_valid mt = true -> Forall (fun b => b < 128) mt.
+Proof.
+  unfold Rules.media_type_valid. destruct mt as [|b rest]; [discriminate|]. intro H.
+  apply andb_true_iff in H as [Hb H]. destruct (Rules.media_split rest) as [pre post] eqn:S.
+  destruct post as [[|p q]|]; try discriminate. apply andb_true_iff in H as [Hp Hq].
+  destruct (media_split_spec rest pre _ S) as [E _]. subst rest.
+  assert (A : forall l, forallb Rules.media_next_char l = true -> Forall (fun b => b < 128) l).
+  { intros l F. apply Forall_forall. intros x Hx. rewrite forallb_forall in F. specialize (F x Hx).
+    destruct (N.ltb_spec x 128); [assumption|]. rewrite media_next_high in F by assumption. discriminate. }
+  constructor.
+  - destruct (N.ltb_spec b 128); [assumption|]. rewrite media_first_high in Hb by assumption. discriminate.
+  - apply Forall_app. split; [apply A, Hp|]. constructor; [lia|apply A, Hq].
+Qed.
+
+Lemma runes_ascii l : Forall (fun b => b < 128) l -> runes l = l.
+Proof.
+  unfold runes. generalize (le_n (length l)). generalize (length l) at 2 3 as f.
+  intros f. revert l. induction f as [|f IH]; intros l L H.
+  - destruct l; [reflexivity|cbn [length] in L; lia].
+  - destruct l as [|b l]; [reflexivity|]. inversion H; subst. cbn [runes_fuel decode_rune].
+    replace (b <? 128) with true by lia. cbn [skipn]. rewrite IH; [reflexivity|cbn [length] in L; lia|assumption].
+Qed.
+
+Lemma u8_ascii l : Forall (fun b => b < 128) l -> CteRead.u8 l = l.
+Proof.
+  intro H. unfold CteRead.u8, CteLit.utf8_str. induction H as [|b l Hb H IH]; [reflexivity|].
+  cbn [flat_map]. rewrite IH. unfold CteLit.utf8_enc. replace (b <? 128) with true by lia. reflexivity.
+Qed.
+
+(* a media type the validator admits is lexable *)
+Theorem media_valid_lexable mt : media_valid mt = true -> media_lexable mt = true.
+Proof.
+  unfold media_valid, media_lexable. intro H. apply andb_true_iff in H as [_ H].
+  rewrite (runes_ascii mt (media_type_valid_ascii mt H)). rewrite <- media_type_valid_iff_lexable. exact H.
+Qed.
+
+(* ... and the encoder's spelling "@mt[" / "@mt" + quote is read as media of that type — never as a typed-array
+   header or a custom type: the token is the MEDIA branch of the lexer with the whole media type *)
+Theorem media_valid_reread mt idx r : media_valid mt = true ->
+  CteRead.at_token idx (runes mt ++ 91 :: r) =
+    match CteRead.bytes_body r with
+    | Some (data, rest) => Some (CteRead.TVal (EMedia mt data), rest, idx)
+    | None => None
+    end /\
+  CteRead.at_token idx (runes mt ++ 34 :: r) =
+    match CteRead.lex_string idx r with
+    | Some (data, rest, idx') => Some (CteRead.TVal (EMedia mt data), rest, idx')
+    | None => None
+    end.
+Proof.
+  intro V. pose proof (media_valid_lexable mt V) as L. unfold media_lexable in L.
+  unfold media_valid in V. apply andb_true_iff in V as [_ V].
+  pose proof (media_type_valid_ascii mt V) as A. rewrite (runes_ascii mt A) in *.
+  unfold CteRead.at_token. split.
+  - rewrite (proj2 (m_media_iff mt 91 r (or_introl eq_refl)) L). change (91 =? 91) with true. cbv iota.
+    rewrite (u8_ascii mt A). reflexivity.
+  - rewrite (proj2 (m_media_iff mt 34 r (or_intror eq_refl)) L). change (34 =? 91) with false. cbv iota.
+    rewrite (u8_ascii mt A). reflexivity.
+Qed.
+
+(* custom type codes the validator admits fit the CBE decoder's limit (and the encoder's uint64) *)
+Theorem custom_type_ok_fits ct : Rules.custom_type_ok ct = true ->
+  ct <= Cbe.custom_type_max /\ Cbe.is_u64 ct = true.
+Proof.
+  unfold Rules.custom_type_ok, Cbe.custom_type_max, Cbe.is_u64. intro H. split; [lia|].
+  apply N.ltb_lt. apply N.leb_le in H. apply N.le_lt_trans with (1 := H). reflexivity.
+Qed.
+
+(* ------------------------------------------------------------------ *)
+(** * 7c. Area/location zones through the complete reader, for every name *)
+
+Section AreaNames.
+Import CteRead.
+
+Definition clock_txt : bytes := [48; 49; 58; 48; 50; 58; 48; 51].
+
+Lemma upper_facts c : is_upper c = true -> is_dec c = false /\ c <> 45 /\ c < 128.
+Proof. unfold is_upper, is_dec. intro H. repeat split; lia. Qed.
+
+Lemma m_opt_tz_area name : area_lexable_runes name = true -> m_opt_tz (47 :: name) = [].
+Proof.
+  intro L. unfold m_opt_tz.
+  pose proof (proj2 (m_tz_area_iff name [] I) L) as H. rewrite app_nil_r in H. rewrite H. reflexivity.
+Qed.
+
+Lemma tz_text_area c r : is_upper c = true -> tz_text (47 :: c :: r) = tz_area_text (c :: r).
+Proof.
+  intro U. destruct (upper_facts c U) as (D & N45 & _). unfold tz_text. rewrite D.
+  replace (c =? 45) with false by lia. reflexivity.
+Qed.
+
+Lemma word_token_area name : area_lexable_runes name = true ->
+  word_token (clock_txt ++ 47 :: name) =
+  match tz_area_text name with
+  | Some tz => Some (TVal (ETime (clock_txt ++ tz)), [])
+  | None => None
+  end.
+Proof.
+  intro L. destruct name as [|c r]; [discriminate|].
+  pose proof L as L0. unfold area_lexable_runes in L0. apply andb_true_iff in L0 as [U F].
+  unfold word_token, clock_txt. cbn [app].
+  unfold word_candidates. cbn -[span ch_area_next is_upper m_opt_tz].
+  rewrite (m_opt_tz_area (c :: r) L).
+  cbn -[time_text]. rewrite firstn_all.
+  unfold time_text. cbn -[tz_text tz_area_text].
+  rewrite (tz_text_area c r U). destruct (tz_area_text (c :: r)); reflexivity.
+Qed.
+
+Lemma area_next_high b : 128 <= b -> ch_area_next b = false.
+Proof.
+  intro H. unfold ch_area_next, is_alpha, lower, is_dec.
+  replace ((65 <=? b) && (b <=? 90)) with false by lia.
+  repeat match goal with |- context [b =? ?k] => replace (b =? k) with false by lia end.
+  replace ((97 <=? b) && (b <=? 122)) with false by lia. replace ((48 <=? b) && (b <=? 57)) with false by lia. reflexivity.
+Qed.
+
+Lemma area_lexable_ascii name : area_lexable_runes name = true -> Forall (fun b => b < 128) name.
+Proof.
+  destruct name as [|c r]; [discriminate|]. unfold area_lexable_runes. intro H. apply andb_true_iff in H as [U F].
+  constructor; [apply (upper_facts c U)|].
+  apply Forall_forall. intros x Hx. rewrite forallb_forall in F. specialize (F x Hx).
+  destruct (N.ltb_spec x 128); [assumption|]. rewrite area_next_high in F by assumption. discriminate.
+Qed.
+
+(* The complete reader on the one-value document "c0 LF 01:02:03/<name>", for EVERY lexable name: the time is
+   read with the zone the text side derives from the name ([tz_area_text]: the UTC and Local aliases, the
+   expansion of a one-letter area, the 127-byte limit), or the document is refused when that fails. *)
+Theorem area_time_reread name : area_lexable_runes name = true ->
+  time_reread (clock_txt ++ 47 :: name) = option_map (fun tz => clock_txt ++ tz) (tz_area_text name).
+Proof.
+  intro L. unfold time_reread, read_value, cte_read.
+  assert (A : Forall (fun b => b < 128) (99 :: 48 :: 10 :: clock_txt ++ 47 :: name)).
+  { repeat (constructor; [lia|]). unfold clock_txt. cbn [app]. repeat (constructor; [lia|]). apply (area_lexable_ascii name L). }
+  rewrite (runes_ascii _ A). unfold read_runes. cbn [lower N.eqb Pos.eqb andb orb].
+  change ((lower 99 =? 99) && ((48 =? 48) || (48 =? 49))) with true. cbv iota.
+  (* the lexer: white space, then the time token *)
+  cbn [length lex]. unfold next_tok at 1. cbn [is_ws N.eqb Pos.eqb orb span snd].
+  change (is_ws 10) with true. cbv iota.
+  assert (W : span is_ws (clock_txt ++ 47 :: name) = ([], clock_txt ++ 47 :: name)) by reflexivity.
+  rewrite W. cbn [snd].
+  destruct (length (clock_txt ++ 47 :: name)) as [|f] eqn:Len; [discriminate|].
+  cbn [lex]. unfold clock_txt at 1. cbn [app]. unfold next_tok.
+  cbn [is_ws N.eqb Pos.eqb orb andb].
+  change (48 :: 49 :: 58 :: 48 :: 50 :: 58 :: 48 :: 51 :: 47 :: name) with (clock_txt ++ 47 :: name).
+  rewrite (word_token_area name L).
+  destruct (tz_area_text name) as [tz|]; [|reflexivity].
+  cbn [option_map]. destruct f; reflexivity.
+Qed.
+
+End AreaNames.
+
+(* splitAreaLocation with the literal slash spelled as a test *)
+Lemma expand_short_eq name :
+  expand_short name =
+  match name with
+  | a :: x :: loc => if x =? 47 then match CteRead.assoc a CteRead.short_areas with Some area => area ++ 47 :: loc | None => name end else name
+  | _ => name
+  end.
+Proof.
+  unfold expand_short. destruct name as [|a [|x loc]]; try reflexivity.
+  destruct x as [|p]; [reflexivity|]. do 6 (destruct p as [p|p|]; try reflexivity).
+Qed.
+
+Lemma short_areas_shape :
+  forallb (fun p : N * bytes => match snd p with _ :: x :: _ => negb (x =? 47) | _ => false end) CteRead.short_areas = true.
+Proof. vm_compute. reflexivity. Qed.
+
+Lemma assoc_In k l v : CteRead.assoc k l = Some v -> In (k, v) l \/ exists k', In (k', v) l.
+Proof.
+  induction l as [|[a w] l IH]; cbn [CteRead.assoc]; [discriminate|].
+  destruct (a =? k); intro H.
+  - inversion H; subst. right. exists a. left. reflexivity.
+  - destruct (IH H) as [I|[k' I]]; [left; right; exact I|right; exists k'; right; exact I].
+Qed.
+
+Lemma expand_short_idem name : expand_short (expand_short name) = expand_short name.
+Proof.
+  rewrite (expand_short_eq name). destruct name as [|a [|x loc]]; try reflexivity.
+  destruct (N.eqb_spec x 47) as [X|X].
+  - destruct (CteRead.assoc a CteRead.short_areas) as [area|] eqn:A.
+    + assert (Sh : exists a' x' rest, area = a' :: x' :: rest /\ x' <> 47).
+      { pose proof short_areas_shape as W. rewrite forallb_forall in W.
+        destruct (assoc_In _ _ _ A) as [I|[k' I]]; specialize (W _ I); cbn [snd] in W;
+          destruct area as [|a' [|x' rest]]; try discriminate; exists a', x', rest; split; try reflexivity;
+          intro E; subst x'; discriminate. }
+      destruct Sh as (a' & x' & rest & E & N47). subst area. cbn [app]. rewrite expand_short_eq.
+      replace (x' =? 47) with false by lia. reflexivity.
+    + rewrite expand_short_eq. replace (x =? 47) with true by lia. rewrite A. reflexivity.
+  - rewrite expand_short_eq. replace (x =? 47) with false by lia. reflexivity.
+Qed.
+
+(* the reader's naming of a zone, written with [expand_short] *)
+Lemma tz_area_text_eq name :
+  CteRead.tz_area_text name =
+  if CteRead.mem_bytes name CteRead.area_utc || CteRead.mem_bytes name CteRead.area_utc_preserve then Some []
+  else if CteRead.mem_bytes name CteRead.area_local then Some (47 :: str "Local"%string)
+  else if (length (expand_short name) =? 0)%nat || (127 <? length (expand_short name))%nat then None
+       else Some (47 :: expand_short name).
+Proof. reflexivity. Qed.
+
+Lemma lexable_runes_bytes name : area_lexable name = true -> runes name = name.
+Proof.
+  unfold area_lexable. intro L. pose proof (area_lexable_ascii _ L) as A.
+  assert (R : CteLit.utf8_str (runes name) = name).
+  { unfold runes. apply no_fffd_roundtrip; [lia|]. apply Forall_forall. intros r Hr.
+    rewrite Forall_forall in A. specialize (A r Hr). lia. }
+  rewrite <- R at 2. symmetry. apply (u8_ascii _ A).
+Qed.
+
+Lemma clock_string_area raw :
+  time_string (clock_time 1 2 3 (TzArea raw)) = clock_txt ++ zone_string (TzArea raw).
+Proof. reflexivity. Qed.
+
+(* For EVERY string in the area/location field: when validateTime lets the time through, the text side reads
+   the CTE encoder's spelling back as the same time (the same zone: an alias of UTC or Local is named canonically). *)
+Theorem area_zone_reread raw :
+  cbe_time_ok (clock_time 1 2 3 (TzArea raw)) = true ->
+  time_reread (time_string (clock_time 1 2 3 (TzArea raw))) = Some (time_string (time_canon (clock_time 1 2 3 (TzArea raw)))).
+Proof.
+  intro OK. unfold cbe_time_ok, time_valid, clock_valid, time_lexable, zone_lexable, zone_valid, clock_time in OK.
+  cbn [t_type t_hour t_minute t_second t_nano t_zone] in OK.
+  unfold time_canon. cbn [clock_time t_type t_year t_month t_day t_hour t_minute t_second t_nano t_zone].
+  fold (clock_time 1 2 3 (zone_canon (zone_canon (TzArea raw)))).
+  rewrite clock_string_area.
+  assert (Ec : forall z, time_string (clock_time 1 2 3 z) = clock_txt ++ zone_string z) by reflexivity.
+  rewrite Ec. cbn [zone_canon zone_string].
+  destruct (init_area raw) as [| |long] eqn:IA.
+  - (* an alias of UTC *) vm_compute. reflexivity.
+  - (* Local *) vm_compute. reflexivity.
+  - apply andb_true_iff in OK as [V L]. cbn [andb] in V.
+    assert (V' : (1 <=? length long)%nat && (length long <=? 127)%nat = true).
+    { revert V. cbn. intro V. exact V. }
+    apply andb_true_iff in V' as [L1 L127].
+    pose proof (lexable_runes_bytes long L) as RB. unfold area_lexable in L. rewrite RB in L.
+    rewrite (area_time_reread long L).
+    (* [long] is a fixed point of the expansion *)
+    assert (Ex : expand_short long = long).
+    { unfold init_area in IA.
+      destruct (CteRead.mem_bytes raw CteRead.area_utc || CteRead.mem_bytes raw CteRead.area_utc_preserve || match raw with [] => true | _ => false end); [discriminate|].
+      destruct (CteRead.mem_bytes raw CteRead.area_local); [discriminate|]. inversion IA; subst. apply expand_short_idem. }
+    rewrite tz_area_text_eq, Ex. cbn [zone_canon]. unfold init_area at 1.
+    destruct (CteRead.mem_bytes long CteRead.area_utc || CteRead.mem_bytes long CteRead.area_utc_preserve) eqn:M1.
+    + cbn [orb option_map zone_string]. reflexivity.
+    + assert (Lne : match long with [] => true | _ => false end = false) by (destruct long; [discriminate|reflexivity]).
+      rewrite Lne. cbn [orb].
+      destruct (CteRead.mem_bytes long CteRead.area_local) eqn:M2.
+      * cbn [option_map]. vm_compute. reflexivity.
+      * rewrite Ex. replace ((length long =? 0)%nat || (127 <? length long)%nat) with false by lia.
+        cbn [option_map zone_string]. unfold init_area. rewrite M1, Lne, M2, Ex. reflexivity.
 Qed.
 
 (* ------------------------------------------------------------------ *)
@@ -567,7 +960,7 @@ Proof.
 Qed.
 
 (* ------------------------------------------------------------------ *)
-(** * 9. The property as stated, and where the current code violates it *)
+(** * 9. The property as stated, and where the current code still violates it *)
 
 (* first half: every document the binary side accepts converts to a text the text side accepts, with
    the same data up to padding, and converting that back reproduces the data *)
@@ -582,10 +975,6 @@ Definition C03_cte_half : Prop :=
   forall text es, cte_side text = Some es -> has_custom_text es = false ->
     exists d es2, to_cbe es = Some d /\ cbe_side d = Some es2 /\ Denote.den es2 = Denote.no_comments (Denote.den es).
 Definition C03_full : Prop := C03_cbe_half /\ C03_cte_half.
-(* the text side alone, on validated event streams (times live here: Model/Cbe.v has no times) *)
-Definition C03_text_side : Prop :=
-  forall es0 es, rules_forward es0 = Some es ->
-    exists t es2, to_cte es = Some t /\ cte_side t = Some es2 /\ Denote.den es2 = Denote.no_padding (Denote.den es).
 
 Definition media_doc (mt : bytes) : bytes := [129; 0; 127; 243] ++ [Cbe.len mt] ++ mt ++ [4; 1; 2].
 
@@ -596,90 +985,56 @@ Definition cbe_outcome (doc : bytes) : bool * option bytes * bool * bool :=
   | None => (false, None, false, false)
   end.
 
-(* media type "i8": accepted by the binary side, written "@i8[01 02]", read back as an int8 array *)
-Lemma media_i8_outcome :
-  cbe_outcome (media_doc (str "i8"%string)) = (true, Some (str "c0"%string ++ [10] ++ str "@i8[01 02]"%string), true, false) /\
-  option_map r_reread (option_map cbe_report_of (cbe_side (media_doc (str "i8"%string)))) =
-    Some (Some [EBeginDoc; EVersion 0; EArray RulesConsts.AT_Int8 2 [1; 2]; EEndDoc]).
-Proof. vm_compute. split; reflexivity. Qed.
-
-(* media types without a slash, the empty one, one with a space: accepted, written, rejected by the text side *)
-Lemma media_unspellable_outcomes :
-  cbe_outcome (media_doc (str "a"%string)) = (true, Some (str "c0"%string ++ [10] ++ str "@a[01 02]"%string), false, false) /\
-  cbe_outcome (media_doc []) = (true, Some (str "c0"%string ++ [10] ++ str "@[01 02]"%string), false, false) /\
-  cbe_outcome (media_doc (str "text/plain; charset=utf-8"%string)) =
-    (true, Some (str "c0"%string ++ [10] ++ str "@text/plain; charset=utf-8[01 02]"%string), false, false) /\
+(* the media types that used to break the conversion (read back as an int8 array, as custom type 7, or
+   not at all) are refused by the binary side now; a well-formed one converts *)
+Lemma media_outcomes :
+  cbe_outcome (media_doc (str "i8"%string)) = (false, None, false, false) /\
+  cbe_outcome (media_doc (str "7"%string)) = (false, None, false, false) /\
+  cbe_outcome (media_doc (str "a"%string)) = (false, None, false, false) /\
+  cbe_outcome (media_doc []) = (false, None, false, false) /\
+  cbe_outcome (media_doc (str "text/plain; charset=utf-8"%string)) = (false, None, false, false) /\
   cbe_outcome (media_doc (str "a/b"%string)) = (true, Some (str "c0"%string ++ [10] ++ str "@a/b[01 02]"%string), true, true).
 Proof. vm_compute. repeat split. Qed.
 
-Definition media_a_doc : bytes := media_doc (str "a"%string).
-Theorem C03_cbe_half_refuted : ~ C03_cbe_half.
-Proof.
-  intro H. pose proof I as d. clear d.
-  assert (E0 : cbe_side media_a_doc = Some (oget (cbe_side media_a_doc))) by (vm_compute; reflexivity).
-  destruct (H media_a_doc _ E0) as (t & es2 & d2 & es3 & Ht & Hs & _).
-  assert (E1 : to_cte (oget (cbe_side media_a_doc)) = Some (oget (to_cte (oget (cbe_side media_a_doc))))) by (vm_compute; reflexivity).
-  rewrite E1 in Ht. assert (Et : t = oget (to_cte (oget (cbe_side media_a_doc)))) by congruence. subst t.
-  assert (E2 : cte_side (oget (to_cte (oget (cbe_side media_a_doc)))) = None) by (vm_compute; reflexivity).
-  rewrite E2 in Hs. discriminate.
-Qed.
+(* a custom type number above 2^32-1 is refused by the text side's validator now *)
+Definition custom_big_text : bytes := str "c0 @4294967296[01]"%string.
+Lemma custom_outcomes :
+  cte_side custom_big_text = None /\
+  cte_converts custom_big_text = true /\ cte_converts (str "c0 @4294967295[01]"%string) = true /\
+  cte_side (str "c0 @4294967295[01]"%string) = Some [EBeginDoc; EVersion 0; ECustomBin 4294967295 [1]; EEndDoc].
+Proof. vm_compute. repeat split. Qed.
 
-(* ... and the silent variant: accepted on both sides, different data *)
+(* Still open (inherited from the CTE round trip, property C02): a float array element that is a NaN with a
+   payload is written "nan" and read back as the canonical NaN.  8 bytes: signature, version, a short
+   float32 array of one element 7fc00001. *)
+Definition nan_payload_doc : bytes := [129; 0; 127; 145; 1; 0; 192; 127].
+
+Lemma nan_payload_outcome :
+  cbe_outcome nan_payload_doc = (true, Some (str "c0"%string ++ [10] ++ str "@f32x[nan]"%string), true, false) /\
+  option_map r_reread (option_map cbe_report_of (cbe_side nan_payload_doc)) =
+    Some (Some [EBeginDoc; EVersion 0; EArray RulesConsts.AT_Float32 1 [0; 0; 224; 127]; EEndDoc]).
+Proof. vm_compute. split; reflexivity. Qed.
+
 Theorem C03_cbe_half_refuted_silently :
   exists doc es t es2, cbe_side doc = Some es /\ to_cte es = Some t /\ cte_side t = Some es2 /\
                        Denote.den es2 <> Denote.no_padding (Denote.den es).
 Proof.
-  set (d := media_doc (str "i8"%string)).
-  exists d, (oget (cbe_side d)), (oget (to_cte (oget (cbe_side d)))), (oget (cte_side (oget (to_cte (oget (cbe_side d)))))).
+  exists nan_payload_doc, (oget (cbe_side nan_payload_doc)), (oget (to_cte (oget (cbe_side nan_payload_doc)))),
+         (oget (cte_side (oget (to_cte (oget (cbe_side nan_payload_doc)))))).
   vm_compute. repeat split. discriminate.
 Qed.
 
-(* times: validated streams the text side cannot take over *)
-Definition time_stream (s : bytes) : list event := [EBeginDoc; EVersion 0; ETime s; EEndDoc].
-Definition text_outcome (es0 : list event) : bool * option bytes * bool :=
-  match rules_forward es0 with
-  | Some es => (true, to_cte es, match to_cte es with Some t => match cte_side t with Some _ => true | None => false end | None => false end)
-  | None => (false, None, false)
-  end.
-
-Lemma time_outcomes :
-  text_outcome (time_stream (str "01:02:03/x"%string)) = (true, Some (str "c0"%string ++ [10] ++ str "01:02:03/x"%string), false) /\
-  text_outcome (time_stream (str "01:02:03/europe/berlin"%string)) = (true, Some (str "c0"%string ++ [10] ++ str "01:02:03/europe/berlin"%string), false) /\
-  text_outcome (time_stream (str "31:02:03"%string)) = (true, Some (str "c0"%string ++ [10] ++ str "31:02:03"%string), false) /\
-  text_outcome (time_stream (str "2000-13-00"%string)) = (true, Some (str "c0"%string ++ [10] ++ str "2000-13-00"%string), false) /\
-  text_outcome (time_stream (str "0-01-01"%string)) = (true, Some (str "c0"%string ++ [10] ++ str "0-01-01"%string), false) /\
-  text_outcome (time_stream (str "01:02:03+3407"%string)) = (true, Some (str "c0"%string ++ [10] ++ str "01:02:03+3407"%string), false) /\
-  text_outcome (time_stream (str "01:02:03/163.83/327.67"%string)) = (true, Some (str "c0"%string ++ [10] ++ str "01:02:03/163.83/327.67"%string), false) /\
-  text_outcome (time_stream (str "01:02:03/Europe/Berlin"%string)) = (true, Some (str "c0"%string ++ [10] ++ str "01:02:03/Europe/Berlin"%string), true).
-Proof. vm_compute. repeat split. Qed.
-
-Definition zone_x_stream : list event := time_stream (str "01:02:03/x"%string).
-Theorem C03_text_side_refuted : ~ C03_text_side.
+Theorem C03_cbe_half_refuted : ~ C03_cbe_half.
 Proof.
   intro H.
-  assert (E0 : rules_forward zone_x_stream = Some (oget (rules_forward zone_x_stream))) by (vm_compute; reflexivity).
-  destruct (H zone_x_stream _ E0) as (t & es2 & Ht & Hs & _).
-  assert (E1 : to_cte (oget (rules_forward zone_x_stream)) = Some (oget (to_cte (oget (rules_forward zone_x_stream))))) by (vm_compute; reflexivity).
-  rewrite E1 in Ht. assert (Et : t = oget (to_cte (oget (rules_forward zone_x_stream)))) by congruence. subst t.
-  assert (E2 : cte_side (oget (to_cte (oget (rules_forward zone_x_stream)))) = None) by (vm_compute; reflexivity).
-  rewrite E2 in Hs. discriminate.
-Qed.
-
-(* second half: a custom type number above 2^32-1 is accepted by the text side, written by the CBE
-   encoder, and refused by the CBE decoder *)
-Definition custom_big_text : bytes := str "c0 @4294967296[01]"%string.
-Lemma custom_big_outcome :
-  cte_side custom_big_text = Some [EBeginDoc; EVersion 0; ECustomBin 4294967296 [1]; EEndDoc] /\
-  to_cbe [EBeginDoc; EVersion 0; ECustomBin 4294967296 [1]; EEndDoc] = Some [129; 0; 146; 128; 128; 128; 128; 16; 2; 1] /\
-  cbe_side [129; 0; 146; 128; 128; 128; 128; 16; 2; 1] = None /\
-  cte_converts custom_big_text = false /\ cte_converts (str "c0 @4294967295[01]"%string) = true.
-Proof. vm_compute. repeat split. Qed.
-
-Theorem C03_cte_half_refuted : ~ C03_cte_half.
-Proof.
-  intro H. destruct custom_big_outcome as (E1 & E2 & E3 & _).
-  destruct (H _ _ E1 eq_refl) as (d & es2 & Hd & Hs & _).
-  rewrite E2 in Hd. assert (Ed : d = [129; 0; 146; 128; 128; 128; 128; 16; 2; 1]) by congruence. subst d. rewrite E3 in Hs. discriminate.
+  assert (E0 : cbe_side nan_payload_doc = Some (oget (cbe_side nan_payload_doc))) by (vm_compute; reflexivity).
+  destruct (H nan_payload_doc _ E0) as (t & es2 & d2 & es3 & Ht & Hs & Hd & _).
+  assert (E1 : to_cte (oget (cbe_side nan_payload_doc)) = Some (oget (to_cte (oget (cbe_side nan_payload_doc))))) by (vm_compute; reflexivity).
+  rewrite E1 in Ht. assert (Et : t = oget (to_cte (oget (cbe_side nan_payload_doc)))) by congruence. subst t.
+  assert (E2 : cte_side (oget (to_cte (oget (cbe_side nan_payload_doc)))) =
+               Some (oget (cte_side (oget (to_cte (oget (cbe_side nan_payload_doc))))))) by (vm_compute; reflexivity).
+  rewrite E2 in Hs. assert (Ee : es2 = oget (cte_side (oget (to_cte (oget (cbe_side nan_payload_doc)))))) by congruence. subst es2.
+  revert Hd. vm_compute. discriminate.
 Qed.
 
 Theorem C03_full_refuted : ~ C03_full.
